@@ -1,0 +1,30 @@
+//go:build verif
+
+package smtp
+
+import "net"
+
+// Verification hooks, compiled only with the "verif" build tag.
+
+// VerifDial, when set, replaces the network dial of Dial, DialTLS,
+// DialStartTLS, SendMail and SendMailTLS, so that they can be pointed at a
+// simulated peer.
+var VerifDial func(network, addr string) (net.Conn, error)
+
+func verifDial(network, addr string) (net.Conn, error, bool) {
+	if VerifDial == nil {
+		return nil, nil, false
+	}
+	conn, err := VerifDial(network, addr)
+	return conn, err, true
+}
+
+// VerifYield, when set, is called at the named points of Server.Close and
+// Server.Shutdown between the test of s.done and its closing.
+var VerifYield func(point string)
+
+func verifYield(point string) {
+	if VerifYield != nil {
+		VerifYield(point)
+	}
+}
